@@ -9,6 +9,14 @@ TECH_V = "contract-based deductive verification: Verus (SMT) on the real functio
 TECH_K = "contract-based verification: Kani/CBMC loop-free harnesses over the full input domain on the real functions/tables, re-extracted from /repo on every run"
 
 CHECKS = {
+ "C03": dict(engine="verus", category="proof",
+   text="PARTIAL: soundness of the predicate-implication judgement Context::is_super_pred_of on the predicates the statement speaks about - comparison atoms over integer constants, True/False and conjunctions of them of unbounded depth (all class pairs except And x And): whenever it answers true, every integer satisfying the right predicate satisfies the left one. TyParamOrdering::canbe_eq/canbe_le/canbe_ge/is_lt/is_gt are verified on exact orderings. Verus, real function text, recursion proved with a decreases measure.",
+   note="Assumed callee contracts (not proved): Context::try_cmp and supertype_of_tp on integer-constant TyParams (exact ordering / equality), TyParam::has_upper_bound/has_lower_bound (true), TyParam::eq complete on integer constants; the sat axioms are the specification. Not carried: (And, And), (Or, Or), (lhs, Or), (Or, rhs), Call, General* arms (R2-erased: iterator/closure/Set::get_by/reduce_preds) and the callers (structural_supertype_of, unify). The observed defect in the (And, And) arm is outside what this check can report.",
+   technique=TECH_V + "; callee contracts assumed; class copies per constructor pair"),
+ "C32": dict(engine="verus", category="proof",
+   text="For all predicate trees over one integer variable (unbounded depth), Predicate::and / or / invert return a predicate whose set of satisfying integers is exactly the intersection / union / complement (sat(res, i) == sat(l, i) && / || sat(r, i), == !sat(p, i)); eq/ne/ge/le/gt/lt denote the comparison they name. Verus on the real text of the nine functions; `and` proved terminating.",
+   note="The denotation sat is axiomatised by constructor (the axioms are the specification, listed in trusted_base; consistent by well-founded recursion on finite trees). Assumed: PartialEq on Predicate/TyParam/Str is sound (true implies equal), erg_common Set::union/insert and the set! macro behave as sets; all atoms speak about the one refinement variable. invert on GeneralLessEqual/GeneralGreaterEqual (expression-level atoms outside the statement) is excluded by precondition.",
+   technique=TECH_V + "; denotation axiomatised by constructor"),
  "C04": dict(engine="verus+kani", category="proof",
    text="Every obligation generated from the current source of ValueObj::try_{add,sub,mul,floordiv,mod,pow,gt,ge,lt,le,eq,ne,or}, From<i32>/From<bool> for ValueObj, checked_floordiv_i32/checked_floormod_i32 and Context::eval_unary_val is discharged by Verus for all Int/Nat/Bool operands (no overflow, no division by zero, result equals the Python value or is None); Float classes, try_div and the float helpers' zero-divisor behaviour are discharged by loop-free full-domain Kani harnesses.",
    note="Assumed: vstd's specs of checked_* integer ops and of Rust's truncating / and %; std contracts of i32/u64::checked_pow and checked_neg (wrappers); the value part of checked_truediv (IEEE quotient) and float_divmod (CPython transcription) - CBMC cannot decide full-domain f64 division/fmod; f64 powf/powi (try_pow Float classes not carried); Nat operands above 2**53 in int/int true division. The dispatch eval_const_expr -> eval_bin -> try_* is not under contract. Non-scalar arms (Str, List, Dict, Type) are R2-erased.",
